@@ -4,7 +4,7 @@
    generated descriptors' headers.  Instances: the C-family shape (C, C++, C#), the two JavaScript
    shapes.  No header of a generated program is dropped by the `new` / `record` rule. *)
 From Verif Require Import Base Regex Token TokEngine Headers Blocks Spec HeaderSpec LexShapes Grammar GrammarAll.
-From Verif Require Import GrammarProofsParen GrammarProofsBrace GrammarProofsHeaders GrammarAllProofsWf.
+From Verif Require Import GrammarProofsParen GrammarProofsBrace GrammarProofsHeaders GrammarAllProofsTok.
 From Verif Require Import GrammarAllProofsSel GrammarAllProofsCand.
 From Coq Require Import Sorted Permutation.
 Open Scope nat_scope.
@@ -24,6 +24,11 @@ Inductive citems (Pc Ph : list token -> Prop) (l : language) : nat -> list token
     citems Pc Ph l (off + 1 + length words + length cond + 1) body ds1 ->
     citems Pc Ph l (off + 1 + length words + length cond + 1 + length body + 1) r ds2 ->
     citems Pc Ph l off (kw :: words ++ cond ++ o :: body ++ c :: r) (ds1 ++ ds2)
+| ci_init off pre o flat c post semi r ds :
+    pre <> [] -> forallb plain pre = true -> is_lbrace o = true -> forallb plain flat = true -> is_rbrace c = true ->
+    inner post -> is_symbol semi semicolon = true ->
+    citems Pc Ph l (off + length pre + 1 + length flat + 1 + length post + 1) r ds ->
+    citems Pc Ph l off (pre ++ o :: flat ++ c :: post ++ semi :: r) ds
 | ci_func off pre hd nm_off hend_off o body c r ds1 ds2 :
     forallb (prefix_word l) pre = true -> fhead l hd nm_off hend_off -> Ph hd ->
     is_lbrace o = true -> is_rbrace c = true ->
@@ -37,18 +42,14 @@ Inductive citems (Pc Ph : list token -> Prop) (l : language) : nat -> list token
 
 Definition any_tokens : list token -> Prop := fun _ => True.
 
-Lemma citems_items_of (Pc Ph : list token -> Prop) l off ts ds : (forall cond, Pc cond -> no_throws_kw cond) ->
-  citems Pc Ph l off ts ds -> items_of l off ts ds.
-Proof. intros HP. induction 1; [apply io_nil | apply io_stmt | apply io_ctrl | apply io_func]; auto. Qed.
-
 (* the grammar of GrammarAll.v is the instance "no `throws` keyword in a condition" *)
 Lemma items_of_citems l off ts ds : items_of l off ts ds -> citems no_throws_kw any_tokens l off ts ds.
-Proof. induction 1; [apply ci_nil | apply ci_stmt | apply ci_ctrl | apply ci_func]; try assumption; exact I. Qed.
+Proof. induction 1; [apply ci_nil | apply ci_stmt | apply ci_ctrl | apply ci_init | apply ci_func]; try assumption; exact I. Qed.
 
 Lemma citems_weaken (Pc Ph Pc' Ph' : list token -> Prop) l off ts ds :
   (forall cond, Pc cond -> Pc' cond) -> (forall hd, Ph hd -> Ph' hd) ->
   citems Pc Ph l off ts ds -> citems Pc' Ph' l off ts ds.
-Proof. intros HP HQ. induction 1; [apply ci_nil | apply ci_stmt | apply ci_ctrl | apply ci_func]; auto. Qed.
+Proof. intros HP HQ. induction 1; [apply ci_nil | apply ci_stmt | apply ci_ctrl | apply ci_init | apply ci_func]; auto. Qed.
 
 (* ---------- what the item theorem needs of a selection ---------- *)
 Record oksel (Pc : list token -> Prop) (l : language) (c : cand_fn) (f : follow_fn) : Prop := mkOkSel
@@ -59,6 +60,8 @@ Record oksel (Pc : list token -> Prop) (l : language) (c : cand_fn) (f : follow_
     o_ctrl : forall kw words cond o B, is_keyword kw = true -> forallb word_tok words = true ->
              (cond = [] \/ (groups cond /\ is_name (last (kw :: words) kw) = false)) -> Pc (words ++ cond) ->
              is_lbrace o = true -> no_acc c f (kw :: words ++ cond ++ [o]) B;
+    o_init : forall pre o flat cl B, forallb plain pre = true -> is_lbrace o = true -> forallb plain flat = true ->
+             is_rbrace cl = true -> no_acc c f (pre ++ o :: flat ++ [cl]) B;
     o_prefix : forall pre B, forallb (prefix_word l) pre = true -> hd_ok word B -> no_acc c f pre B }.
 
 Lemma good_oksel Pc l c f : good l c f -> oksel Pc l c f.
@@ -69,6 +72,7 @@ Proof.
   - apply (stmt_no_acc l c f G).
   - apply (symbol_no_acc l c f G).
   - intros kw words cond o B Hkw Hwords Hcond _ Ho. apply (ctrl_front_no_acc l c f G); assumption.
+  - apply (init_front_no_acc l c f G).
   - apply (prefix_no_acc l c f G).
 Qed.
 
@@ -107,6 +111,25 @@ Section OneSelection.
     apply Seg_app; [exact Hb|].
     apply Seg_app; [eapply seg_symbol; exact Hcl|].
     cbn [length]. exact Hr.
+  Qed.
+
+  Lemma seg_init off pre o flat cl post semi r B hr :
+    forallb plain pre = true -> is_lbrace o = true -> forallb plain flat = true -> is_rbrace cl = true ->
+    inner post -> is_symbol semi semicolon = true ->
+    Seg c f (off + length pre + 1 + length flat + 1 + length post + 1) r B hr ->
+    Seg c f off (pre ++ o :: flat ++ cl :: post ++ semi :: r) B hr.
+  Proof.
+    intros Hpre Ho Hflat Hcl Hpost Hsemi Hr.
+    replace (pre ++ o :: flat ++ cl :: post ++ semi :: r) with ((pre ++ o :: flat ++ [cl]) ++ (post ++ [semi]) ++ r)
+      by (norm_app; reflexivity).
+    change hr with ([] ++ [] ++ hr).
+    apply Seg_app.
+    { apply (Seg_none c f Hc Hf). apply (o_init _ _ _ _ G); assumption. }
+    apply Seg_app.
+    { apply seg_stmt. exists post, semi. auto. }
+    replace (off + length (pre ++ o :: flat ++ [cl]) + length (post ++ [semi]))
+      with (off + length pre + 1 + length flat + 1 + length post + 1) by (norm_len; lia).
+    exact Hr.
   Qed.
 
   Lemma seg_func off pre hd o body cl r B hh hb hr :
@@ -155,6 +178,7 @@ Section TwoSelections.
   Proof.
     induction 1 as [off|off s r ds Hs Hr IH
                    |off kw words cond o body c r ds1 ds2 Hkw Hwords Hcond HPc Ho Hc Hb IHb Hr IHr
+                   |off pre o flat c post semi r ds Hne Hpre Ho Hflat Hc Hpost Hsemi Hr IH
                    |off pre hd nm_off hend_off o body c r ds1 ds2 Hpre Hhd HPh Ho Hc Hb IHb Hflat Hr IHr]; intros B.
     - exists [], []. split; [apply Seg_nil|]. split; [apply Seg_nil | constructor].
     - destruct (IH B) as (h1 & h2 & S1 & S2 & HP). exists h1, h2.
@@ -167,6 +191,10 @@ Section TwoSelections.
       + apply (seg_ctrl Pc l c1 f1 G1); assumption.
       + apply (seg_ctrl Pc l c2 f2 G2); assumption.
       + rewrite map_app. eapply Permutation_trans; [apply perm_mix|]. apply Permutation_app; assumption.
+    - destruct (IH B) as (h1 & h2 & S1 & S2 & HP). exists h1, h2.
+      split; [|split; [|exact HP]].
+      + apply (seg_init Pc l c1 f1 G1); assumption.
+      + apply (seg_init Pc l c2 f2 G2); assumption.
     - destruct (IHb (([c] ++ r) ++ B)) as (b1 & b2 & Sb1 & Sb2 & HPb).
       destruct (IHr B) as (r1 & r2 & Sr1 & Sr2 & HPr).
       pose proof (fhead_first _ _ _ _ Hhd) as Hfirst.
@@ -360,12 +388,13 @@ Proof.
   exact (HQ Q' t eq_refl).
 Qed.
 
-Theorem items_of_no_drop l off ts ds : items_of l off ts ds ->
+Theorem citems_no_drop Pc Ph l off ts ds : citems Pc Ph l off ts ds ->
   forall P B, length P = off -> last_ok P -> Forall (fun d => java_drop (P ++ ts ++ B) (header_of d) = false) ds.
 Proof.
   induction 1 as [off|off s r ds Hs Hr IH
                  |off kw words cond o body c r ds1 ds2 Hkw Hwords Hcond Hnt Ho Hc Hb IHb Hr IHr
-                 |off pre hd nm_off hend_off o body c r ds1 ds2 Hpre Hhd Ho Hc Hb IHb Hflat Hr IHr]; intros P B HP HL.
+                 |off pre o flat c post semi r ds Hne Hpre Ho Hflat Hc Hpost Hsemi Hr IH
+                 |off pre hd nm_off hend_off o body c r ds1 ds2 Hpre Hhd HPh Ho Hc Hb IHb Hflat Hr IHr]; intros P B HP HL.
   - constructor.
   - replace (P ++ (s ++ r) ++ B) with ((P ++ s) ++ r ++ B) by (norm_app; reflexivity).
     apply IH; [norm_len; lia|]. destruct Hs as (body & semi & -> & _ & Hsemi).
@@ -381,6 +410,12 @@ Proof.
       apply IHr; [norm_len; lia|].
       replace (P ++ kw :: words ++ cond ++ o :: body ++ [c]) with ((P ++ kw :: words ++ cond ++ o :: body) ++ [c]) by (norm_app; reflexivity).
       apply last_ok_snoc. eapply symbol_no_drop; exact Hc.
+  - replace (P ++ (pre ++ o :: flat ++ c :: post ++ semi :: r) ++ B)
+      with ((P ++ pre ++ o :: flat ++ c :: post ++ [semi]) ++ r ++ B) by (norm_app; reflexivity).
+    apply IH; [norm_len; lia|].
+    replace (P ++ pre ++ o :: flat ++ c :: post ++ [semi]) with ((P ++ pre ++ o :: flat ++ c :: post) ++ [semi])
+      by (norm_app; reflexivity).
+    apply last_ok_snoc. eapply symbol_no_drop; exact Hsemi.
   - constructor; [|apply Forall_app; split].
     + unfold header_of. cbn [fd_name fd_start fd_hend].
       replace (P ++ (pre ++ hd ++ o :: body ++ c :: r) ++ B)
@@ -406,11 +441,11 @@ Proof.
 Qed.
 
 (* a selection that is a permutation of the generated headers is not changed by the rule *)
-Theorem canonical_no_drop l ts ds hs : canonical_program_of l ts ds -> Permutation hs (map header_of ds) ->
+Theorem canonical_no_drop Pc Ph l ts ds hs : citems Pc Ph l 0 ts ds -> Permutation hs (map header_of ds) ->
   filter (fun h => negb (java_drop ts h)) hs = hs.
 Proof.
   intros H HP. apply filter_all. intros h Hh.
   apply (Permutation_in _ HP) in Hh. apply in_map_iff in Hh as (d & <- & Hd).
-  pose proof (items_of_no_drop l 0 ts ds H [] [] eq_refl last_ok_nil) as HF.
+  pose proof (citems_no_drop Pc Ph l 0 ts ds H [] [] eq_refl last_ok_nil) as HF.
   cbn [app] in HF. rewrite app_nil_r in HF. rewrite Forall_forall in HF. rewrite (HF d Hd). reflexivity.
 Qed.
